@@ -39,11 +39,11 @@ def like_scen(pat, texts, carrier, mode, neg=False):
     return sc
 
 
-def having_scen(rng, preds, pats):
+def having_scen(rng, preds, pats, texts=None):
     """HAVING carrier: predicates over the alias of last_value(s) in a tumbling batch of 4 groups"""
     groups = ["a", "b", "c", "d"]
     rows, rid = [], 0
-    texts = ["ab", "a", "b%", "", "aab", "xaab", "a.b"]
+    texts = texts or ["ab", "a", "b%", "", "aab", "xaab", "a.b"]
     for g in groups:
         for k in range(rng.choice([1, 2])):
             rid += 1
@@ -156,6 +156,9 @@ def run(tier):
         scen.append(like_scen(pat, rng.sample(texts_all, 40), "selpar", "sync" if k % 2 else "emit"))
     seqfam.run_scenarios(res, scen, "TraceDirect", tag="like", relayout_p=0.3, rename_p=0.3)
     hav = [having_scen(rng, ["like", "notnull", "isnull", "like_and_notnull", "notnull_and_like"], ["a%", "%b", "a_", "%", "%a%", "a%b", "x%aab", "_"]) for _ in range(150 if quick else 5000)]
+    # text that looks like an aggregate call INSIDE the pattern literal of a HAVING clause is a run of characters like any other
+    hav += [having_scen(rng, ["like", "like_and_notnull", "notnull_and_like"], ["%max(x)%", "%count(*)%", "max(s)", "%avg(v)", "sum(%"],
+                        texts=["a max(x) b", "max(s)", "count(*)", "x avg(v)", "ab", "sum(v)", "max(x)"]) for _ in range(40 if quick else 1000)]
     seqfam.run_scenarios(res, hav, "TracePostAgg", tag="having")
     scen += hav
     seqfam.run_pinned(res, "TraceDirect")
